@@ -7,7 +7,6 @@ use crate::tape::{mix, Fnv, Tape};
 use serde_json::{json, Value};
 use std::collections::{BTreeMap, BTreeSet, HashSet};
 use std::panic::{catch_unwind, AssertUnwindSafe};
-use std::sync::atomic::{AtomicU64, Ordering};
 use std::sync::Mutex;
 use std::time::Instant;
 
@@ -106,9 +105,24 @@ pub fn guarded<R>(f: impl FnOnce() -> R) -> Result<R, String> {
     }
 }
 
+/// Runs `f` to completion on a new thread (2 MiB stack: small enough for glibc to recycle the stacks of finished threads).
+pub fn on_fresh_thread<R: Send>(f: impl FnOnce() -> R + Send) -> R {
+    std::thread::scope(|s| {
+        std::thread::Builder::new()
+            .stack_size(2 << 20)
+            .spawn_scoped(s, f)
+            .expect("spawn")
+            .join()
+            .unwrap_or_else(|p| std::panic::resume_unwind(p))
+    })
+}
+
 pub fn exec_one(engine: &dyn Engine, tape: Tape, variant: u64, log: bool) -> RunOut {
     let ctx = Ctx::new(tape, log);
-    let r = guarded(|| engine.run(&ctx, variant));
+    // Every run gets a thread of its own: whatever the code under test keeps per thread
+    // (thread-locals, caches) starts empty, so a run is a function of its tape alone and not of the
+    // runs a worker happened to execute before it. History on one thread is built inside a run.
+    let r = on_fresh_thread(|| guarded(|| engine.run(&ctx, variant)));
     if let Err(msg) = r {
         // a panic that escaped the engine's own guards is a harness error
         ctx.violation("HARNESS", "harness_panic", msg);
@@ -146,19 +160,20 @@ pub struct Batch {
     pub timed_out: bool,
 }
 
-pub fn run_batch(
-    engine: &dyn Engine,
-    seed: u64,
-    start: u64,
-    runs: u64,
-    workers: usize,
-    max_wall_s: f64,
-    keep_digests: bool,
-) -> Batch {
-    let next = AtomicU64::new(start);
-    let end = start + runs;
-    let t0 = Instant::now();
-    let merged = Mutex::new(Batch {
+/// Interns a key that came back from a shard process.
+fn intern(s: &str) -> &'static str {
+    static TABLE: Mutex<BTreeMap<String, &'static str>> = Mutex::new(BTreeMap::new());
+    let mut t = TABLE.lock().unwrap();
+    if let Some(v) = t.get(s) {
+        return v;
+    }
+    let leaked: &'static str = Box::leak(s.to_string().into_boxed_str());
+    t.insert(s.to_string(), leaked);
+    leaked
+}
+
+fn empty_batch() -> Batch {
+    Batch {
         runs_done: 0,
         stats: BTreeMap::new(),
         sigs: HashSet::new(),
@@ -168,80 +183,171 @@ pub fn run_batch(
         sim_time: 0,
         wall_s: 0.0,
         timed_out: false,
-    });
+    }
+}
+
+/// One shard of a batch, on this thread: the blocks of 64 run indices whose block number is
+/// `index` modulo `shards`. Every run executes on a thread of its own (see `exec_one`).
+pub fn run_shard(engine: &dyn Engine, seed: u64, start: u64, runs: u64, shards: u64, index: u64, max_wall_s: f64, keep_digests: bool) -> Batch {
+    let t0 = Instant::now();
+    let end = start + runs;
     let nvar = engine.variants().max(1);
-    std::thread::scope(|s| {
-        for _ in 0..workers.max(1) {
-            s.spawn(|| {
-                let mut local = Batch {
-                    runs_done: 0,
-                    stats: BTreeMap::new(),
-                    sigs: HashSet::new(),
-                    nontrivial_sigs: HashSet::new(),
-                    found: Vec::new(),
-                    digests: Vec::new(),
-                    sim_time: 0,
-                    wall_s: 0.0,
-                    timed_out: false,
-                };
-                loop {
-                    let lo = next.fetch_add(64, Ordering::SeqCst);
-                    if lo >= end {
-                        break;
-                    }
-                    if t0.elapsed().as_secs_f64() > max_wall_s {
-                        local.timed_out = true;
-                        break;
-                    }
-                    for run in lo..(lo + 64).min(end) {
-                        let variant = run % nvar;
-                        let out = exec_one(
-                            engine,
-                            Tape::from_seed(run_seed(seed, engine, run)),
-                            variant,
-                            false,
-                        );
-                        local.runs_done += 1;
-                        local.sim_time += out.sim_time;
-                        for (k, v) in &out.stats {
-                            *local.stats.entry(k).or_insert(0) += v;
-                        }
-                        local.sigs.insert(out.sig);
-                        if out.nontrivial {
-                            local.nontrivial_sigs.insert(out.sig);
-                        }
-                        if keep_digests {
-                            local.digests.push((run, out.digest));
-                        }
-                        if !out.violations.is_empty() && local.found.len() < 200 {
-                            for (p, k, d) in out.violations {
-                                local.found.push(Found {
-                                    run,
-                                    variant,
-                                    property: p,
-                                    kind: k,
-                                    detail: d,
-                                    tape: out.tape.clone(),
-                                });
-                            }
-                        }
-                    }
-                }
-                let mut m = merged.lock().unwrap();
-                m.runs_done += local.runs_done;
-                m.sim_time += local.sim_time;
-                for (k, v) in local.stats {
-                    *m.stats.entry(k).or_insert(0) += v;
-                }
-                m.sigs.extend(local.sigs);
-                m.nontrivial_sigs.extend(local.nontrivial_sigs);
-                m.found.extend(local.found);
-                m.digests.extend(local.digests);
-                m.timed_out |= local.timed_out;
-            });
+    let mut local = empty_batch();
+    let mut block = index;
+    'outer: loop {
+        let lo = start + block * 64;
+        if lo >= end {
+            break;
         }
-    });
-    let mut b = merged.into_inner().unwrap();
+        if t0.elapsed().as_secs_f64() > max_wall_s {
+            local.timed_out = true;
+            break 'outer;
+        }
+        for run in lo..(lo + 64).min(end) {
+            let variant = run % nvar;
+            let out = exec_one(engine, Tape::from_seed(run_seed(seed, engine, run)), variant, false);
+            local.runs_done += 1;
+            local.sim_time += out.sim_time;
+            for (k, v) in &out.stats {
+                *local.stats.entry(k).or_insert(0) += v;
+            }
+            local.sigs.insert(out.sig);
+            if out.nontrivial {
+                local.nontrivial_sigs.insert(out.sig);
+            }
+            if keep_digests {
+                local.digests.push((run, out.digest));
+            }
+            if !out.violations.is_empty() && local.found.len() < 200 {
+                for (p, k, d) in out.violations {
+                    local.found.push(Found {
+                        run,
+                        variant,
+                        property: p,
+                        kind: k,
+                        detail: d,
+                        tape: out.tape.clone(),
+                    });
+                }
+            }
+        }
+        block += shards;
+    }
+    local.wall_s = t0.elapsed().as_secs_f64();
+    local
+}
+
+pub fn batch_to_json(b: &Batch) -> Value {
+    json!({
+        "runs_done": b.runs_done,
+        "stats": b.stats.iter().map(|(k, v)| (k.to_string(), json!(v))).collect::<serde_json::Map<String, Value>>(),
+        "sigs": b.sigs.iter().collect::<Vec<_>>(),
+        "nontrivial_sigs": b.nontrivial_sigs.iter().collect::<Vec<_>>(),
+        "found": b.found.iter().map(|f| json!({"run": f.run, "variant": f.variant, "property": f.property, "kind": f.kind, "detail": f.detail, "tape": f.tape})).collect::<Vec<_>>(),
+        "digests": b.digests,
+        "sim_time": b.sim_time,
+        "timed_out": b.timed_out,
+    })
+}
+
+fn batch_from_json(j: &Value) -> Option<Batch> {
+    let mut b = empty_batch();
+    b.runs_done = j["runs_done"].as_u64()?;
+    for (k, v) in j["stats"].as_object()? {
+        b.stats.insert(intern(k), v.as_u64()?);
+    }
+    b.sigs = j["sigs"].as_array()?.iter().filter_map(|v| v.as_u64()).collect();
+    b.nontrivial_sigs = j["nontrivial_sigs"].as_array()?.iter().filter_map(|v| v.as_u64()).collect();
+    for f in j["found"].as_array()? {
+        b.found.push(Found {
+            run: f["run"].as_u64()?,
+            variant: f["variant"].as_u64()?,
+            property: intern(f["property"].as_str()?),
+            kind: f["kind"].as_str()?.to_string(),
+            detail: f["detail"].as_str()?.to_string(),
+            tape: f["tape"].as_array()?.iter().filter_map(|v| v.as_u64()).collect(),
+        });
+    }
+    for d in j["digests"].as_array()? {
+        b.digests.push((d[0].as_u64()?, d[1].as_u64()?));
+    }
+    b.sim_time = j["sim_time"].as_u64()?;
+    b.timed_out = j["timed_out"].as_bool()?;
+    Some(b)
+}
+
+/// Runs a batch. The shards are **processes** (one per worker), each executing its runs one
+/// after the other, every run on a fresh thread: per-thread state of the code under test cannot
+/// travel from one run to the next, and thread creation in sixteen small processes costs a
+/// fraction of what it costs in one big one.
+pub fn run_batch(
+    engine: &dyn Engine,
+    seed: u64,
+    start: u64,
+    runs: u64,
+    workers: usize,
+    max_wall_s: f64,
+    keep_digests: bool,
+) -> Batch {
+    let t0 = Instant::now();
+    let workers = workers.max(1).min(((runs + 63) / 64).max(1) as usize);
+    let mut merged = empty_batch();
+    if workers == 1 {
+        merged = run_shard(engine, seed, start, runs, 1, 0, max_wall_s, keep_digests);
+    } else {
+        let exe = std::env::current_exe().expect("current_exe");
+        let children: Vec<_> = (0..workers)
+            .map(|i| {
+                std::process::Command::new(&exe)
+                    .args([
+                        "shard",
+                        engine.name(),
+                        &seed.to_string(),
+                        &start.to_string(),
+                        &runs.to_string(),
+                        &workers.to_string(),
+                        &i.to_string(),
+                        &max_wall_s.to_string(),
+                        if keep_digests { "1" } else { "0" },
+                    ])
+                    .stdin(std::process::Stdio::null())
+                    .stdout(std::process::Stdio::piped())
+                    .stderr(std::process::Stdio::inherit())
+                    .spawn()
+            })
+            .collect();
+        for (i, c) in children.into_iter().enumerate() {
+            let part = c
+                .and_then(|c| c.wait_with_output())
+                .ok()
+                .filter(|o| o.status.success())
+                .and_then(|o| serde_json::from_slice::<Value>(&o.stdout).ok())
+                .and_then(|j| batch_from_json(&j));
+            match part {
+                Some(local) => {
+                    merged.runs_done += local.runs_done;
+                    merged.sim_time += local.sim_time;
+                    for (k, v) in local.stats {
+                        *merged.stats.entry(k).or_insert(0) += v;
+                    }
+                    merged.sigs.extend(local.sigs);
+                    merged.nontrivial_sigs.extend(local.nontrivial_sigs);
+                    merged.found.extend(local.found);
+                    merged.digests.extend(local.digests);
+                    merged.timed_out |= local.timed_out;
+                }
+                None => merged.found.push(Found {
+                    run: start,
+                    variant: 0,
+                    property: "HARNESS",
+                    kind: "shard_failed".into(),
+                    detail: format!("shard {} of {} did not deliver a result", i, workers),
+                    tape: vec![],
+                }),
+            }
+        }
+    }
+    let mut b = merged;
     b.found.sort_by(|a, b| (a.run, &a.kind).cmp(&(b.run, &b.kind)));
     b.digests.sort();
     b.wall_s = t0.elapsed().as_secs_f64();
